@@ -190,7 +190,29 @@ type vc19Step struct {
 }
 
 type vc19Res struct {
-	Steps []vc19Step `json:"steps"`
+	Steps  []vc19Step  `json:"steps"`
+	Ifaces [][2]string `json:"ifaces"` // hex (IP, Mask) of every interface subnet, as the driver's own net.Interfaces() sees them
+}
+
+// vc19Ifaces lists the machine's interface subnets (the external input of covert_blocklist_public_addrs).
+func vc19Ifaces() [][2]string {
+	out := [][2]string{}
+	ifaces, err := net.Interfaces()
+	if err != nil {
+		return out
+	}
+	for _, i := range ifaces {
+		addrs, err := i.Addrs()
+		if err != nil {
+			continue
+		}
+		for _, a := range addrs {
+			if n, ok := a.(*net.IPNet); ok {
+				out = append(out, [2]string{hex.EncodeToString(n.IP), hex.EncodeToString(n.Mask)})
+			}
+		}
+	}
+	return out
 }
 
 func vc19Hex(s string) string { return hex.EncodeToString([]byte(s)) }
@@ -256,6 +278,7 @@ func vc19Observe(rm *RegistrationManager, written []string, c vc19Case) (qs []vc
 func vc19Run(c vc19Case, dir string, stub *vc19Stub) (r vc19Res) {
 	logger := log.New(io.Discard, "[C19e] ", golog.Ldate)
 	stub.setScript(c.Script)
+	r.Ifaces = vc19Ifaces()
 	os.Setenv("PHANTOM_SUBNET_LOCATION", c19place(dir, "subnets.toml", c19file{Kind: "text", Text: c.Sub}, ""))
 	var rm *RegistrationManager
 	var written []string // covert_blocklist_domains of the file in force, as written
